@@ -328,6 +328,15 @@ macro_rules! impl_pfloat {
     };
 }
 
+/// An iterator that hides the length of the one it wraps.
+pub struct NoHint<I>(pub I);
+impl<I: Iterator> Iterator for NoHint<I> {
+    type Item = I::Item;
+    fn next(&mut self) -> Option<I::Item> {
+        self.0.next()
+    }
+}
+
 /// `Dyn(spec)` is an emplacer for every probed type: it builds the library's own emplacer
 /// (literal, `*Init`, `FromArray`, `FromIterator`, `FromStr`, default emplacer) from the spec.
 pub struct Dyn<'a>(pub &'a Spec);
@@ -524,6 +533,9 @@ macro_rules! dyn_vec_body {
         match $s {
             Spec::Empty => vec::Empty.$m($b),
             Spec::Default => <FlatVec<T, L> as FlatDefault>::default_emplacer().$m($b),
+            // lists of odd length come from an iterator that does not know its length (size_hint = (0, None), as
+            // `filter` or `from_fn` give), the others from an exact-size one
+            Spec::VIter(v) if v.len() % 2 == 1 => vec::FromIterator(NoHint(v.iter().map(T::from_spec))).$m($b),
             Spec::VIter(v) => vec::FromIterator(v.iter().map(T::from_spec)).$m($b),
             Spec::VArr(v) => {
                 let f = |i: usize| T::from_spec(&v[i]);
@@ -697,6 +709,7 @@ macro_rules! dyn_flex_body {
         match $s {
             Spec::Empty => flex::Empty.$m($b),
             Spec::Default => <FlexVec<T, L> as FlatDefault>::default_emplacer().$m($b),
+            Spec::Flex(v) if v.len() % 2 == 1 => flex::FromIterator::new(NoHint(v.iter().map(Dyn))).$m($b),
             Spec::Flex(v) => flex::FromIterator::new(v.iter().map(Dyn)).$m($b),
             _ => panic!("bad spec for FlexVec"),
         }
